@@ -25,6 +25,7 @@ import (
 	jsonv2 "github.com/go-json-experiment/json"
 
 	"verifsim/core"
+	"verifsim/gen"
 	"verifsim/scen"
 )
 
@@ -153,6 +154,18 @@ func runOne(spec *propSpec, prop, tier string, tape *core.Tape, stats *core.Stat
 	stats.Nontrivial = false
 	env := &scen.Env{Prop: prop, Tier: tier, Stats: stats, WantPlan: wantPlan, Thorough: tier == "thorough", Known: knownSet}
 	sc := spec.Make()
+	// World parameter: the process-wide format-tag switch. With it on the
+	// library appends an option to EVERY call, so the "no per-call options"
+	// paths of MarshalEncode/UnmarshalDecode (which then work on the coder's
+	// own option struct, also when user methods re-enter the library) would
+	// never run; with it off, generated types carry no `format:` tags.
+	ftOn := tape.S("world/format-tag-switch").Chance(2, 3)
+	jsonv2.ExperimentalGlobalSupportFormatTag(ftOn)
+	gen.FormatTags = ftOn
+	defer func() {
+		jsonv2.ExperimentalGlobalSupportFormatTag(true)
+		gen.FormatTags = true
+	}()
 	func() {
 		defer func() {
 			if r := recover(); r != nil {
